@@ -448,12 +448,17 @@ func protect(msg *message.IKEMessage, key *security.IKESAKey, role string, rs *R
 
 // RxOpts describes the receive path of one delivery.
 type RxOpts struct {
-	PreHdr   bool   `json:"prehdr,omitempty"` // receiver pre-parses the header from the same bytes
-	Hdr28    bool   `json:"hdr28,omitempty"`
-	HdrOther bool   `json:"hdr_other,omitempty"` // header parsed from ANOTHER buffer holding the datagram, which is reused before DecodeDecrypt runs on a private copy    // ... from the first 28 octets only (a receiver that peeks at the header before reading the rest)
-	Spare    int    `json:"spare,omitempty"`     // spare capacity behind the datagram (poisoned)
-	Scribble string `json:"scribble,omitempty"`  // "", "complement", "random", "zero"
-	Hold     int    `json:"hold,omitempty"`
+	PreHdr bool `json:"prehdr,omitempty"` // receiver pre-parses the header from the same bytes
+	Hdr28  bool `json:"hdr28,omitempty"`
+	// Hdr28: ... from the first 28 octets only (a receiver that peeks at the header before reading the rest)
+	// HdrOther: header parsed from ANOTHER buffer holding the datagram, which is reused before DecodeDecrypt runs on a private copy
+	HdrOther bool `json:"hdr_other,omitempty"`
+	// WrongFirst: the receiver has two candidate SAs for the datagram (rekey in progress, SPI collision) and tries
+	// the one with other keys first, on the same buffer; that attempt is refused, then the right SA is tried.
+	WrongFirst bool   `json:"wrong_first,omitempty"`
+	Spare      int    `json:"spare,omitempty"`    // spare capacity behind the datagram (poisoned)
+	Scribble   string `json:"scribble,omitempty"` // "", "complement", "random", "zero"
+	Hold       int    `json:"hold,omitempty"`
 	// Redeliver: the same receive buffer (not a copy) is presented a second time,
 	// to a decoder with its own key object, as a retrying or second receiver would.
 	Redeliver bool `json:"redeliver,omitempty"`
